@@ -233,12 +233,16 @@ func Explore(r *core.Run, o Options) {
 			}
 		}
 		results := make([]*node, len(edges))
-		core.Parallel(len(edges), func(i int) {
+		par := core.Parallel
+		if o.Mutation {
+			par = core.Sequential // in-place mutations must be attributed to the call that made them
+		}
+		par(len(edges), func(i int) {
 			e := edges[i]
 			nx, f := step(e.n, e.si)
 			if f != nil {
-				// confirm twice before reporting
-				for k := 0; k < 2; k++ {
+				// confirm twice before reporting (an in-place mutation cannot be re-observed: sequential execution makes it deterministic instead)
+				for k := 0; k < 2 && !o.Mutation; k++ {
 					_, g := step(e.n, e.si)
 					if g == nil || g.Key != f.Key {
 						core.Engine("transition verdict did not reproduce: %s", f.Key)
@@ -284,7 +288,7 @@ func Explore(r *core.Run, o Options) {
 			live++
 		}
 	}
-	r.States = int64(len(all))
+	r.States += int64(len(all))
 	r.Extra["depth_completed"] = depthDone
 	r.Extra["frontier_left"] = live
 	if live > 0 {
